@@ -93,6 +93,9 @@ func (m *DistrStakingMigrate) Execute(ctx sdk.Context, cdc codec.BinaryCodec, fr
 		info.DelegatorAddress = sdk.AccAddress(to.Bytes()).String()
 		stakingStore.Delete(delegateIterator.Key())
 		stakingStore.Set(stakingtypes.GetDelegationKey(to.Bytes(), validatorAddr), stakingtypes.MustMarshalDelegation(cdc, info))
+		// the delegations-by-validator index
+		stakingStore.Delete(stakingtypes.GetDelegationsByValKey(validatorAddr, from))
+		stakingStore.Set(stakingtypes.GetDelegationsByValKey(validatorAddr, to.Bytes()), []byte{})
 
 		events = append(events,
 			sdk.NewEvent(
